@@ -12,6 +12,7 @@
 From Coq Require Import List ZArith Bool NArith.
 From GZ Require Import C06.Model C06.Proofs C06.GenProofs C06.ProofsB C06.ProofsC C06.ProofsE C06.Codec C06.CodecProofs.
 From GZ Require C07.Model C06.ProofsD.
+From GZ Require Import C06.Check C06.ProofsCheck.
 Import ListNotations.
 Open Scope Z_scope.
 
@@ -325,6 +326,22 @@ Theorem float64_detour_invisible_up_to_2_53 : forall z, Z.abs z <= 2 ^ 53 ->
   round53 z = z /\ fmt_v (normalize_float (through_cache (VInt64 z))) = fmt_v (VInt64 z).
 Proof. exact (fun z H => conj (round53_small z H) (normalize_float_small z H)). Qed.
 Print Assumptions float64_detour_invisible_up_to_2_53.
+
+(* The judgement of the check and the model.  [Check.prop_ok] judges histories observed on the
+   implementation against a reference database of its own.  On EVERY observed history [w] (any mix
+   of the two instances) on which the implementation agrees with the model ([agrees1]: results,
+   query counts, keys seen by the callbacks, store contents after every operation), clause (A)
+   of the judgement - coherence, with the exemption of the known finding F7 (a read of a key whose
+   failed invalidation is outstanding in the model) - holds at every Take / QueryRow / Get: it is a
+   consequence of the coherence invariant, not an oracle of its own, and can only fail where the
+   implementation leaves the model or F7 shows.  (Partial: the QueryRowIndex reads of clause (A)
+   and clauses (B)-(H) are not tied to the model by a theorem.) *)
+Theorem agreed_primary_reads_are_coherent_partial : forall w : wcase,
+  NoDup (map fst (c_rows w)) -> agrees1 w = true ->
+  coherent_primary_from (c_cfg w) (c_cfg2 w) (c_inst w)
+                        (mkR (c_rows w) false [] [] true [] (init (c_rows w))) (c_ops w) (c_obs w) = true.
+Proof. exact agreed_reads_coherent_lemma. Qed.
+Print Assumptions agreed_primary_reads_are_coherent_partial.
 
 (* ------------------------------------------------------------------ non-vacuity *)
 Definition ex_cfg : config := mkCfg (100 * sec) (10 * sec) [(KP 1, 1)] false.
